@@ -227,17 +227,15 @@ func checkC20(r *core.Result) {
 			return true
 		}
 		pathObj := info.Uses[pathArg]
-		// enclosing if shouldExpand(pathObj)
-		guarded := false
-		for cur := ast.Node(c); cur != nil; cur = parents[cur] {
-			if is, ok := parents[cur].(*ast.IfStmt); ok && ast.Node(is.Body) == cur {
-				if gc, ok := is.Cond.(*ast.CallExpr); ok && strings.HasSuffix(types.ExprString(gc.Fun), "shouldExpand") && len(gc.Args) == 1 {
-					if id, ok := gc.Args[0].(*ast.Ident); ok && info.Uses[id] == pathObj {
-						guarded = true
-					}
-				}
+		// dominated by shouldExpand(pathObj) being true (enclosing if, or a guard clause `if !shouldExpand(p) { continue }`)
+		guarded := dominatedBy(parents, c, func(e ast.Expr) bool {
+			gc, ok := e.(*ast.CallExpr)
+			if !ok || !strings.HasSuffix(types.ExprString(gc.Fun), "shouldExpand") || len(gc.Args) != 1 {
+				return false
 			}
-		}
+			id, ok := gc.Args[0].(*ast.Ident)
+			return ok && info.Uses[id] == pathObj
+		})
 		// definition: append(parent, tag)
 		defOK := false
 		ast.Inspect(f.Decl.Body, func(m ast.Node) bool {
@@ -543,8 +541,15 @@ func hexWhitespaceRule(r *core.Result, prog *core.Program, pk *packages.Package)
 						undecided = "the strings.Map callback is outside the recognised forms"
 					}
 					removed.union(c)
+				} else if decl := namedFuncDecl(pk, info, x.Args[0]); decl != nil {
+					// a named function of the package: the same analysis on its body
+					c, ok := removedByMapFunc(info, &ast.FuncLit{Type: decl.Type, Body: decl.Body})
+					if !ok {
+						undecided = "the strings.Map callback " + decl.Name.Name + " is outside the recognised forms"
+					}
+					removed.union(c)
 				} else {
-					undecided = "strings.Map with a non-literal callback"
+					undecided = "strings.Map with a callback that is neither a literal nor a function of the package"
 				}
 				classify(x.Args[1])
 			case name == "strings.Replace" && fn.Type().(*types.Signature).Recv() != nil && len(x.Args) == 1:
@@ -661,6 +666,9 @@ func hexLineSourceRule(r *core.Result, prog *core.Program, pk *packages.Package)
 		}
 	}
 	okSrc, detail := false, "no range loop over the lines of the input found"
+	if lineSrc == nil && cutWalk(info, f.Decl.Body, param) {
+		okSrc = true
+	}
 	if c, ok := lineSrc.(*ast.CallExpr); ok {
 		fn := staticCallee(info, c)
 		detail = "the lines come from " + types.ExprString(c)
@@ -720,7 +728,122 @@ func hexBoundsRule(r *core.Result, prog *core.Program, pk *packages.Package) {
 		n++
 		r.Ob("H5", keyer.key(f.Name, ob.Site), prog.Pos(ob.Pos), ob.OK, ob.Detail)
 	}
-	r.Floor("index sites of ParseAnnotatedHex", n, 1)
+	// every index / slice expression of the function has an obligation (a function without any has nothing to prove)
+	nSyn := 0
+	ast.Inspect(f.Decl.Body, func(nn ast.Node) bool {
+		switch nn.(type) {
+		case *ast.IndexExpr, *ast.SliceExpr:
+			nSyn++
+		}
+		return true
+	})
+	r.Counts["index sites of ParseAnnotatedHex"] = n
+	r.Ob("H5", f.Name+" :: every index / slice expression has a bounds obligation", prog.Pos(f.Pos()), n >= nSyn, fmt.Sprintf("%d index / slice expressions, %d obligations", nSyn, n))
+}
+
+// namedFuncDecl resolves an identifier that names a function declared in pk.
+func namedFuncDecl(pk *packages.Package, info *types.Info, e ast.Expr) *ast.FuncDecl {
+	id, ok := ast.Unparen(e).(*ast.Ident)
+	if !ok {
+		return nil
+	}
+	fn, ok := info.Uses[id].(*types.Func)
+	if !ok || fn.Pkg() != pk.Types {
+		return nil
+	}
+	for _, file := range pk.Syntax {
+		for _, d := range file.Decls {
+			if fd, ok := d.(*ast.FuncDecl); ok && info.Defs[fd.Name] == fn && fd.Body != nil {
+				return fd
+			}
+		}
+	}
+	return nil
+}
+
+// cutWalk recognises the other total way of visiting the "\n"-separated pieces of the input:
+//
+//	for <…> rest, more := <…> param, true; more; <…> {
+//		line, rest, more = strings.Cut(rest, "\n")
+//
+// i.e. a loop that runs while the `found` result of strings.Cut(rest, "\n") is true, starts with rest = the whole
+// input and more = true, and cuts as its first statement. The pieces are exactly those of strings.Split(input, "\n").
+func cutWalk(info *types.Info, body *ast.BlockStmt, param types.Object) bool {
+	for _, st := range body.List {
+		fs, ok := st.(*ast.ForStmt)
+		if !ok || fs.Init == nil || fs.Cond == nil || len(fs.Body.List) == 0 {
+			continue
+		}
+		init, ok := fs.Init.(*ast.AssignStmt)
+		condID, ok2 := fs.Cond.(*ast.Ident)
+		if !ok || !ok2 || init.Tok != token.DEFINE || len(init.Lhs) != len(init.Rhs) {
+			continue
+		}
+		var restObj, moreObj types.Object
+		for i, l := range init.Lhs {
+			id, ok := l.(*ast.Ident)
+			if !ok {
+				continue
+			}
+			if rid, ok := init.Rhs[i].(*ast.Ident); ok && info.Uses[rid] == param {
+				restObj = info.Defs[id]
+			}
+			if tv := info.Types[init.Rhs[i]]; tv.Value != nil && tv.Value.String() == "true" {
+				moreObj = info.Defs[id]
+			}
+		}
+		if restObj == nil || moreObj == nil || info.Uses[condID] != moreObj {
+			continue
+		}
+		// the first statement that assigns rest / more is the cut, and nothing else assigns them
+		nAssign, okCut := 0, false
+		ast.Inspect(fs, func(n ast.Node) bool {
+			as, ok := n.(*ast.AssignStmt)
+			if !ok || as == init {
+				return true
+			}
+			touches := false
+			for _, l := range as.Lhs {
+				if id, ok := l.(*ast.Ident); ok && (info.Uses[id] == restObj || info.Uses[id] == moreObj) {
+					touches = true
+				}
+			}
+			if !touches {
+				return true
+			}
+			nAssign++
+			if len(as.Lhs) == 3 && len(as.Rhs) == 1 {
+				c, ok := as.Rhs[0].(*ast.CallExpr)
+				l1, ok1 := as.Lhs[1].(*ast.Ident)
+				l2, ok2 := as.Lhs[2].(*ast.Ident)
+				if ok && ok1 && ok2 && info.Uses[l1] == restObj && info.Uses[l2] == moreObj && len(c.Args) == 2 {
+					if fn := staticCallee(info, c); fn != nil && fn.Pkg() != nil && fn.Pkg().Path() == "strings" && fn.Name() == "Cut" {
+						a0, isID := c.Args[0].(*ast.Ident)
+						if tv := info.Types[c.Args[1]]; isID && info.Uses[a0] == restObj && tv.Value != nil && constantString(tv) == "\n" {
+							okCut = true
+						}
+					}
+				}
+			}
+			return true
+		})
+		// the cut must come before anything that can `continue`
+		first := false
+		switch x := fs.Body.List[0].(type) {
+		case *ast.AssignStmt:
+			first = len(x.Lhs) == 3
+		case *ast.DeclStmt:
+			if len(fs.Body.List) > 1 {
+				if as, ok := fs.Body.List[1].(*ast.AssignStmt); ok {
+					first = len(as.Lhs) == 3
+				}
+			}
+		}
+		if okCut && nAssign == 1 && first {
+			return true
+		}
+	}
+	return false
 }
 
 // ---------------------------------------------------------------------------
